@@ -79,19 +79,68 @@ theorem sim_param (c : Ctx) (cfg : Cfg) : (p : Path) → pathWf p = true → pat
     paramSim_of c cfg h ss fns (sim_steps c cfg ss hwf'.1 (by rw [pathExt] at hext; exact hext) henv'.1) henv'.2
 end
 
-/-- **parse ∘ print = build** on the whole domain of the printer -/
-theorem parse_print_all (env : Env) (ext : Ext) (cfg : Cfg) (ss : List Step) (fns : List Fn)
+/-- **parse ∘ print = build**, exactly: on the whole domain of the printer `Parse` answers the chain
+    `Build.build` answers, or the error `Build.build` answers — a syntax error at rune `errPos` -/
+theorem parse_print_exact (env : Env) (ext : Ext) (cfg : Cfg) (ss : List Step) (fns : List Fn)
     (hwf : pathWf (.mk .root ss fns) = true) (hext : ExtOK ext (.mk .root ss fns))
     (henv : EnvOK env (.mk .root ss fns)) :
-    Agree (Build.build env cfg (texts (.mk .root ss fns)))
-      (parseModel env ext cfg (printS (.mk .root ss fns))) := by
+    parseModel env ext cfg (printS (.mk .root ss fns)) = expected env cfg (.mk .root ss fns) := by
   have hwf' := hwf
   rw [pathWf, Bool.and_eq_true] at hwf'
   have hext' : stepsExt ext ss := by
     have := hext; unfold ExtOK at this; rw [pathExt] at this; exact this
   have henv' : stepsEnv env ss ∧ ∀ f ∈ fns, fnKindOK env f := by
     have := henv; unfold EnvOK at this; rw [pathEnv] at this; exact this
-  exact parse_print_of_sim env ext cfg ss fns (recognise_print_wf ss fns hwf)
+  exact parse_print_exact_of_sim env ext cfg ss fns (recognise_print_wf ss fns hwf)
     (sim_steps ⟨env, ext, cfg.accessor, (print (.mk .root ss fns)).toArray⟩ cfg ss hwf'.1 hext' henv'.1) henv'.2
+
+/-- **parse ∘ print = build** on the whole domain of the printer -/
+theorem parse_print_all (env : Env) (ext : Ext) (cfg : Cfg) (ss : List Step) (fns : List Fn)
+    (hwf : pathWf (.mk .root ss fns) = true) (hext : ExtOK ext (.mk .root ss fns))
+    (henv : EnvOK env (.mk .root ss fns)) :
+    Agree (Build.build env cfg (texts (.mk .root ss fns)))
+      (parseModel env ext cfg (printS (.mk .root ss fns))) := by
+  rw [parse_print_exact env ext cfg ss fns hwf hext henv]
+  exact agree_expected env cfg _
+
+/-- the reason of the syntax error `Parse` returns for an error of `Build` -/
+def reasonOf : ParseErr → Reason
+  | .valueGroupOperand => .filterValueGroup
+  | _ => .twoCurrentNode
+
+/-- a syntax error of `Build` on the recorded texts is the syntax error of `Parse` on the printed path
+    with that reason, at rune `errPos` of the printed path, `near` = the printed path from there on -/
+theorem parse_print_syntaxErr (env : Env) (ext : Ext) (cfg : Cfg) (ss : List Step) (fns : List Fn)
+    (hwf : pathWf (.mk .root ss fns) = true) (hext : ExtOK ext (.mk .root ss fns))
+    (henv : EnvOK env (.mk .root ss fns)) (e : ParseErr)
+    (he : e = .valueGroupOperand ∨ e = .twoCurrentNodes)
+    (hb : Build.build env cfg (texts (.mk .root ss fns)) = .error e) :
+    parseModel env ext cfg (printS (.mk .root ss fns)) =
+      .syntaxErr (errPos env cfg (.mk .root ss fns))
+        (reasonOf e).msg
+        (String.ofList ((print (.mk .root ss fns)).drop (errPos env cfg (.mk .root ss fns)))) := by
+  rw [parse_print_exact env ext cfg ss fns hwf hext henv, expected, hb]
+  rcases he with rfl | rfl <;>
+    simp only [outcomeOfBuild, stopOf, outcomeOfStop, nearOf, reasonOf]
+
+/-- a value-group path as an operand of a comparison -/
+theorem parse_print_valueGroup (env : Env) (ext : Ext) (cfg : Cfg) (ss : List Step) (fns : List Fn)
+    (hwf : pathWf (.mk .root ss fns) = true) (hext : ExtOK ext (.mk .root ss fns))
+    (henv : EnvOK env (.mk .root ss fns))
+    (hb : Build.build env cfg (texts (.mk .root ss fns)) = .error .valueGroupOperand) :
+    parseModel env ext cfg (printS (.mk .root ss fns)) =
+      .syntaxErr (errPos env cfg (.mk .root ss fns)) "JSONPath that returns a value group is prohibited"
+        (String.ofList ((print (.mk .root ss fns)).drop (errPos env cfg (.mk .root ss fns)))) :=
+  parse_print_syntaxErr env ext cfg ss fns hwf hext henv _ (.inl rfl) hb
+
+/-- a comparison of two `@`-paths -/
+theorem parse_print_twoCurrentNodes (env : Env) (ext : Ext) (cfg : Cfg) (ss : List Step) (fns : List Fn)
+    (hwf : pathWf (.mk .root ss fns) = true) (hext : ExtOK ext (.mk .root ss fns))
+    (henv : EnvOK env (.mk .root ss fns))
+    (hb : Build.build env cfg (texts (.mk .root ss fns)) = .error .twoCurrentNodes) :
+    parseModel env ext cfg (printS (.mk .root ss fns)) =
+      .syntaxErr (errPos env cfg (.mk .root ss fns)) "comparison between two current nodes is prohibited"
+        (String.ofList ((print (.mk .root ss fns)).drop (errPos env cfg (.mk .root ss fns)))) :=
+  parse_print_syntaxErr env ext cfg ss fns hwf hext henv _ (.inr rfl) hb
 
 end JPV.PP
